@@ -682,7 +682,7 @@ def correspond_routines(run: lib.Run, inputs, dist):
 
     R = reps()
     wire = [[1, 2], [], {"a": 1}, {"a": "1", "b": "x"}, [1, "2"], {"a": 1, "b": 2, "c": 3}, [[1, 2], [3]], ["a", "b"], 1, None, 1.5, True]
-    light_inputs = [i for k, i in enumerate(inputs) if k < 45 or k % 6 == 0]
+    light_inputs = [i for k, i in enumerate(inputs) if k < 30 or k % 8 == 0]
     for name, T, h, restspec, *mode in R:
         for inp in (light_inputs if mode else inputs):
             if inp[1] in DEEP or len(inp[1]) > 300:
